@@ -8,7 +8,7 @@ from typing import List, Optional, Set
 from ..cfg import ENTRY, EXIT, RAISE, calls_in
 from ..common import calls_named, dotted, kw, loc, norm, stmt_of
 from ..model import AnalysisError, own_nodes
-from .util import (anchor_func, assigned_name, build_cfg, callee_desc, facts, name_aliases, node_of_call,
+from .util import (validating_numpy_call, op_instance_call, anchor_func, assigned_name, build_cfg, callee_desc, facts, name_aliases, node_of_call,
                    raising_calls, switch_assumptions)
 from ..common import stmt_of  # noqa
 
@@ -61,7 +61,7 @@ def r08_1(run, mode_label, assume_switch):
     fi = anchor_func(run, OP)
     assume = switch_assumptions(fi, **assume_switch)
     from .util import op_instance_call
-    cfg = build_cfg(run, fi, assume, extra_raise=lambda c: op_instance_call(run, fi, c))
+    cfg = build_cfg(run, fi, assume, extra_raise=lambda c: op_instance_call(run, fi, c) or validating_numpy_call(c))
     run.count("cfg_nodes", cfg.g.number_of_nodes())
     run.count("cfg_edges", cfg.g.number_of_edges())
     acq_stmt, coll, _ = acquisition(run, fi)
@@ -124,9 +124,55 @@ def _short(cfg, a, b, avoid):
         return [b]
 
 
+def _lock_coverage(run):
+    """the input locks of Tensor._op cover *every* operand: the lock comprehension iterates unique_arrs_and_bases(<the operand tuple that is
+    splatted into the kernel call>) with no filter.  A filter by the operand's original Python type (only ndarrays / Tensors) leaves the array
+    behind a duck-typed operand (an object whose __array__ hands out its own ndarray, adopted with copy=False) writeable while it is an input
+    of a live graph."""
+    fx = facts(run)
+    fi = anchor_func(run, OP)
+    # the operand tuple: the starred leading argument of the kernel call f(*T, ...)
+    kernel = [c for c in own_nodes(fi.node) if isinstance(c, ast.Call) and op_instance_call(run, fi, c)]
+    tup = {norm(a.value) for c in kernel for a in c.args[:1] if isinstance(a, ast.Starred)}
+    if not tup:
+        raise AnalysisError(f"{fi.short}: the kernel call f(*operands, ...) was not found")
+
+    def judge(owner_fi, gen, arg_text):
+        ok = not any(g.ifs for g in gen.generators) and len(gen.generators) == 1
+        it = gen.generators[0].iter
+        inner = it.args[0] if isinstance(it, ast.Call) and (dotted(it.func) or "").endswith("unique_arrs_and_bases") and it.args else None
+        ok = ok and inner is not None and norm(inner) == arg_text
+        run.ob("R08.2", loc(owner_fi, gen), owner_fi.short, "the input locks cover every operand of the op", ok,
+               f"lock_arr_writeability(x) for x in unique_arrs_and_bases({arg_text}), unfiltered" if ok else
+               f"the lock comprehension iterates `{norm(it)[:70]}`" + (" with a filter" if any(g.ifs for g in gen.generators) else "") +
+               f", not the whole operand tuple {sorted(tup)}: some operand arrays of a recorded op stay writeable")
+
+    for c in calls_named(fi.node, "lock_arr_writeability"):
+        par = getattr(c, "_parent", None)
+        if isinstance(par, (ast.GeneratorExp, ast.ListComp)) and isinstance(getattr(par.generators[0].iter, "func", None), (ast.Attribute, ast.Name)) \
+                and (dotted(par.generators[0].iter.func) or "").endswith("unique_arrs_and_bases"):
+            judge(fi, par, sorted(tup)[0])
+            return
+    # extracted into a helper: the helper receives the operand tuple and iterates its own parameter
+    for n in own_nodes(fi.node):
+        if isinstance(n, ast.Call):
+            r = fx.resolve_call(fi, n)
+            if hasattr(r, "node") and getattr(r, "qualname", "") != fi.qualname and calls_named(r.node, "lock_arr_writeability"):
+                for c in calls_named(r.node, "lock_arr_writeability"):
+                    par = getattr(c, "_parent", None)
+                    if isinstance(par, (ast.GeneratorExp, ast.ListComp)):
+                        params = [a.arg for a in r.node.args.args]
+                        pos = [i for i, a in enumerate(n.args) if norm(a) in tup]
+                        if pos and pos[0] < len(params):
+                            judge(r, par, params[pos[0]])
+                            return
+    raise AnalysisError(f"{fi.short}: the comprehension locking the operands was not found")
+
+
 def r08_2(run):
     """every lock_arr_writeability(E) is paired with registration of E in the finalized collection"""
     fx = facts(run)
+    _lock_coverage(run)
     for q in (OP, f"{LOCKMOD}.force_lock_tensor_and_creators"):
         fi = anchor_func(run, q)
         assume = switch_assumptions(fi, track=True, memguard=True)
@@ -387,7 +433,7 @@ def r08_9(run):
     # exactly once: in _op no path passes two release/finalize nodes of the same collection
     fi = anchor_func(run, OP)
     from .util import op_instance_call
-    cfg = build_cfg(run, fi, switch_assumptions(fi, track=True, memguard=True), extra_raise=lambda c: op_instance_call(run, fi, c))
+    cfg = build_cfg(run, fi, switch_assumptions(fi, track=True, memguard=True), extra_raise=lambda c: op_instance_call(run, fi, c) or validating_numpy_call(c))
     _, coll, _ = acquisition(run, fi)
     rel = sorted(_release_nodes(cfg, fi.node, name_aliases(fi.node, coll)))
     bad = [(a, b) for a in rel for b in rel if a != b and b in cfg.reachable_from(a)]
